@@ -270,6 +270,85 @@ def native_sweep(pid, seed, tier):
     return len(inputs), fails
 
 
+def cpr_sweep(seed, tier):
+    """BOUNDED native stand-in for C05's pairing contract (the full-domain Kani harness needs more
+    than 30 min): the real get_position against the standard's decoder on CPR-encoded pairs of true
+    positions concentrated around all 58 NL transition latitudes (both hemispheres), the poles, the
+    equator and the antimeridian, both orders, small displacements, plus random raw quadruples."""
+    import math
+    import random
+    import struct
+    import subprocess
+    rnd = random.Random(seed or 1)
+    o = [x for x in registry.OBL if x["name"] == "cpr_pos_full"]
+
+    def nl(lat):
+        a = abs(lat)
+        if a >= 87.0:
+            return 1
+        for n in range(59, 1, -1):
+            t = round(180.0 / math.pi * math.acos(math.sqrt((1 - math.cos(math.pi / 30)) / (1 - math.cos(2 * math.pi / n)))), 8)
+            if a < t:
+                return n
+        return 1
+
+    def enc(lat, lon, i):
+        dlat = 360.0 / (60 - i)
+        yz = int(math.floor(131072 * ((lat % dlat) / dlat) + 0.5)) % 131072
+        rlat = dlat * (yz / 131072.0 + math.floor(lat / dlat))
+        dlon = 360.0 / max(nl(rlat) - i, 1)
+        xz = int(math.floor(131072 * ((lon % dlon) / dlon) + 0.5)) % 131072
+        return yz, xz
+
+    trans = [180.0 / math.pi * math.acos(math.sqrt((1 - math.cos(math.pi / 30)) / (1 - math.cos(2 * math.pi / n)))) for n in range(59, 1, -1)] + [87.0]
+    pts = []
+    offs = [0.0, 1e-6, -1e-6, 1e-4, -1e-4, 5e-4, -5e-4, 2e-3, -2e-3, 0.01, -0.01]
+    for t in trans:
+        for sgn in (1, -1):
+            for d in offs:
+                for lon in (0.0, 100.0, -100.0, 179.999, -179.999, 45.5):
+                    pts.append((sgn * (t + d), lon))
+    for lat in (0.0, 1e-5, -1e-5, 89.999, -89.999, 90.0, -90.0, 45.0, -45.0):
+        for lon in (0.0, 179.9999, -180.0, -179.9999, 90.0, -90.0, 1e-5):
+            pts.append((lat, lon))
+    n_rand = 3000 if tier == "quick" else 60000
+    for _ in range(n_rand):
+        pts.append((rnd.uniform(-90, 90), rnd.uniform(-180, 180)))
+    inputs = []
+    for (lat, lon) in pts:
+        for (dl, dn) in ((0.0, 0.0), (0.001, 0.001), (-0.002, 0.0005), (0.0009, -0.002)):
+            lat2 = max(-90.0, min(90.0, lat + dl))
+            lon2 = ((lon + dn + 180.0) % 360.0) - 180.0
+            e = enc(lat, lon, 0)
+            od = enc(lat2, lon2, 1)
+            # order 1: even first, odd second ; order 2: odd first, even second
+            inputs.append(struct.pack("<BBIIII", 0, 1, e[0], od[0], e[1], od[1]))
+            inputs.append(struct.pack("<BBIIII", 1, 0, od[0], e[0], od[1], e[1]))
+    for _ in range(n_rand):
+        inputs.append(struct.pack("<BBIIII", rnd.getrandbits(1), rnd.getrandbits(1), rnd.getrandbits(17), rnd.getrandbits(17), rnd.getrandbits(17), rnd.getrandbits(17)))
+    sc = build.make_scratch(o, "native")
+    fails = []
+    try:
+        exe = build.build_native(sc)
+        p = subprocess.run([exe, "cpr_pos_full", "-"], input="\n".join(i.hex() for i in inputs) + "\n", capture_output=True, text=True, timeout=1800)
+        lines = [l for l in p.stdout.splitlines() if l.startswith("LINE ")]
+        if len(lines) != len(inputs):
+            raise Undecided("cpr sweep produced %d lines for %d inputs" % (len(lines), len(inputs)))
+        decoded = 0
+        for l in lines:
+            parts = l.split(" ", 2)
+            rest = parts[2] if len(parts) > 2 else ""
+            if rest.startswith("PANIC"):
+                fails.append((parts[1], ["[C05] PANIC " + rest[6:]]))
+            else:
+                m = re.match(r"checks=(\d+) outside=(\w+) failed=(\d+) ?(.*)", rest)
+                if m and int(m.group(3)) > 0:
+                    fails.append((parts[1], m.group(4).split(" ;; ")))
+    finally:
+        sc.cleanup()
+    return len(inputs), fails
+
+
 def reader_sweep(seed, tier):
     """BOUNDED native stand-in for C19's fault half: Frame::from_reader under every placement of one
     Interrupted error / one short read (call index 0..=15), all-single-byte reads, and pairs of
@@ -418,6 +497,10 @@ def check_property(pid, tier):
                    "names": [o["name"] for o in nb][:40]}
     sweep_info = None
     sweep_viol = []
+    if pid == "C05":
+        n_eval, sf = cpr_sweep(seed, tier)
+        sweep_info = {"what": "BOUNDED native sweep (real code): get_position vs the standard's decoder on CPR-encoded pairs around all 58 NL transition latitudes (both hemispheres), poles, equator, antimeridian, both orders, four displacements, plus random raw quadruples", "evaluations": n_eval, "failures": len(sf)}
+        sweep_viol = [(hx, cl) for hx, cl in sf][:5]
     if pid == "C19":
         n_eval, sf = reader_sweep(seed, tier)
         sweep_info = {"what": "BOUNDED native sweep (real deku): Frame::from_reader vs Frame::from_bytes under all-single-byte reads, one short read at call 0..15, one Interrupted error at call 0..15, over corpus frames of every format", "evaluations": n_eval, "failures": len(sf)}
@@ -470,7 +553,7 @@ def check_property(pid, tier):
 
     known_all = known
     for hx, cl in sweep_viol:
-        sweep_name = "reader_any_native" if pid == "C19" else "frame_any_native"
+        sweep_name = {"C19": "reader_any_native", "C05": "cpr_pos_full"}.get(pid, "frame_any_native")
         unknown = [c for c in cl if not any(kf_match(k, sweep_name, c) for k in known_all)]
         if not unknown:
             lines.append("KNOWN-FINDING: property=%s %s input=%s" % (pid, cl[0], hx))
